@@ -173,10 +173,10 @@ func ruleThreadConfinement(r *Run) {
 	for k := range by {
 		keys = append(keys, k)
 	}
-	sort.Slice(keys, func(i, j int) bool { return keys[i].owner+keys[i].field.Name() < keys[j].owner+keys[j].field.Name() })
+	sort.Slice(keys, func(i, j int) bool { return keys[i].owner+r.P.FieldName(keys[i].field) < keys[j].owner+r.P.FieldName(keys[j].field) })
 	n := 0
 	for _, k := range keys {
-		name := k.owner + "." + k.field.Name()
+		name := k.owner + "." + r.P.FieldName(k.field)
 		var writes []fieldAccess
 		classesTouching := map[string]bool{}
 		for _, a := range by[k] {
